@@ -94,6 +94,104 @@ def run_unit(ck, h, m, rng, quick):
     ck.extra["unit_disagreements"] = ndiff
 
 
+def run_sched(ck, h, m, rng, quick):
+    """the scheduler functions on a real connection with the real ring (sendASDUInternal / sendWaitingASDUs called directly, white box)
+    against their transcription with the literal ring (Cs104/SchedRing.v: send_asdu_internal_r, send_waiting_r), beyond the capacity
+    of the high-priority ring; oracle: a refused response changes nothing, accepted responses go out in issue order, none is lost"""
+    scripts = []
+    for i in range(120 if quick else 3000):
+        k = rng.choice([1, 2, 3, 5, 12])
+        n = rng.choice([1, 1, 2, 2, 3, 5])
+        sizes = [rng.choice([8, 100, 249])] if i % 3 == 0 else [8, 60, 100, 200, 249]
+        lines = ["sch new %d %d" % (k, n)]
+        fail_at = rng.range(10, 80) if i % 10 == 9 else -1
+        dead = False
+        for j in range(rng.range(8, 90)):
+            r = rng.below(100)
+            if j == fail_at:
+                lines.append("sch wmode 1")      # every write fails from here on: the connection is lost at the next transmission
+                dead = True
+            elif dead:
+                # no acknowledgements on a dead connection (the k-buffer entry of the failed write has no sequence number of its own)
+                lines.append("sch resp %d" % rng.choice(sizes) if r < 60 else "sch drain")
+            elif r < 55:
+                lines.append("sch resp %d" % rng.choice(sizes))
+            elif r < 75:
+                lines.append("sch ack %d" % rng.range(0, k))
+            elif r < 97:
+                lines.append("sch drain")
+            elif r < 99:
+                lines += ["sch ack %d" % k, "sch drain"]
+            else:
+                lines.append("sch stop")
+        if not dead:
+            for _ in range((n * 26) // k + 3):
+                lines += ["sch ack %d" % k, "sch drain"]
+        scripts.append(("s%d" % i, k, n, lines))
+    rc = runner.run_batch(h, [(s, l) for s, _, _, l in scripts])
+    rm = runner.run_batch(m, [(s, l) for s, _, _, l in scripts]) if m else {}
+    ndiff = 0
+    refused = 0
+    for sid, k, n, lines in scripts:
+        ck.evaluations += 1
+        o = rc.get(sid, dict(out=[], crash=None))
+        if o["crash"]:
+            ck.fail("input", "crash:%s:%s" % (o["crash"]["kind"], o["crash"]["site"]), "scheduler unit run aborted: %s at %s (k=%d N=%d)" % (o["crash"]["kind"], o["crash"]["site"], k, n),
+                    {"script": lines, "stderr": o["crash"]["text"]})
+            continue
+        out = o["out"]
+        if m and sid in rm and rm[sid]["out"] != out and ndiff < 10:
+            ndiff += 1
+            mo = rm[sid]["out"]
+            i = next((j for j, (a, b) in enumerate(zip(out, mo)) if a != b), min(len(out), len(mo)))
+            ck.fail("correspondence", "diff:sched-ring", "scheduler-with-ring model (Cs104/SchedRing.v) and implementation differ at output line %d: C=%s model=%s" % (i, out[i:i + 1], mo[i:i + 1]),
+                    {"script": lines, "c": out[max(0, i - 3):i + 2], "model": mo[max(0, i - 3):i + 2], "theorem": "C13_sched_ring_*"})
+        # oracle on the C output
+        oi, pid, accepted, written, bad, alive, prev = 0, 0, [], [], None, True, None
+        for li, l in enumerate(lines):
+            outs = []
+            while oi < len(out):
+                outs.append(out[oi]); oi += 1
+                if out[oi - 1].startswith("sch tx="):
+                    break
+            if not outs or not outs[-1].startswith("sch tx="):
+                bad = "no state line for `%s`" % l
+            else:
+                w = outs[-1].split()
+                tx = [int(x) for x in w[1][3:].split(",") if x not in ("", "u")]
+                st = dict(x.split("=") for x in w[2:4] + w[5:])
+                t = l.split()
+                if t[1] == "new":
+                    pid, accepted, written, alive = 0, [], [], True
+                elif t[1] == "resp":
+                    ok = outs[0] == "schresp 1"
+                    if ok:
+                        accepted.append(pid)
+                    else:
+                        refused += 1
+                        if tx or (prev and (prev["n"], prev["k"]) != (st["n"], st["k"])):
+                            bad = "a response the send call refused changed the connection (written %s, ring %s -> %s entries)" % (tx, prev and prev["n"], st["n"])
+                    pid += 1
+                elif t[1] in ("wmode", "stop"):
+                    alive = False
+                written += tx
+                if not bad and written != accepted[:len(written)]:
+                    bad = "responses written %s, accepted in the order %s" % (written[-4:], accepted[max(0, len(written) - 4):len(written) + 1])
+                if not bad and alive and int(st["n"]) + len(written) != len(accepted):
+                    bad = "%d responses accepted, %d written and %d parked: one was dropped or duplicated" % (len(accepted), len(written), int(st["n"]))
+                prev = st
+            if bad:
+                ck.fail("input", "oracle:sched-ring", "scheduler on the real ring (k=%d, N=%d): %s" % (k, n, bad), {"script": lines[:li + 1], "observed": outs})
+                break
+        if not bad and alive and len(written) != len(accepted):
+            ck.fail("input", "oracle:sched-ring", "scheduler on the real ring (k=%d, N=%d): %d accepted responses never written although the window was acknowledged repeatedly" % (
+                k, n, len(accepted) - len(written)), {"script": lines, "observed": out[-4:]})
+        ck.nontriv(("sched", k, n, tuple(lines)))
+    ck.extra["sched_ring_disagreements"] = ndiff
+    ck.count("sched_ring_scripts", len(scripts))
+    ck.count("sched_ring_refusals", refused)
+
+
 def run_trace(ck, rng, quick):
     h = c07.harness()
     try:
@@ -315,10 +413,12 @@ def run(ck):
         "Cs104/MsgQueue.v (hp_*): hand transcription of HighPriorityASDUQueue_enqueue / getNextASDU / isFull with byte offsets, validated operation by operation each run",
         "Cs104/Server.v send_waiting/send_hp: transcription of sendWaitingASDUs; validated by trace equality on scripts that stay below the high-priority capacity",
         "scripted application issuing bursts from inside the interrogation handler",
+        "Cs104/SchedRing.v send_asdu_internal_r / send_hp_r / send_waiting_r: second transcription of sendASDUInternal / sendWaitingASDUs with the literal ring; validated against the real static functions (white-box `sch` scripts) each run; `sch ack` = release of the oldest k-buffer entries is harness glue",
     ]
     ck.rule = ("unit: random enqueue (equal / two / mixed sizes 8..249) / getNext / isFull / reset sequences for ring sizes N in {1,2,3,5,10,50}; "
+               "sched: sendASDUInternal / sendWaitingASDUs called directly with k in {1,2,3,5,12}, ring sizes {1,2,3,5}, responses of 8..249 octets beyond the ring capacity, partial acknowledgements, write failure; "
                "trace: interrogation commands answered by ACT_CON + bursts of 1..60 replies (+ACT_TERM) with k in {1,2,3,5,12}, high-priority queue sizes {1,2,5,50}, events interleaved, partial acknowledgements; non-trivial = distinct script")
-    ck.explanation = "PARTIAL: scheduler order theorems and the refinement of the byte-offset HighPriorityASDUQueue ring to a FIFO (every ring size, every history, no stale read, entries inside the arena) are proved in Coq; the byte-offset ring of the EVENT queue (MessageQueue) behind the clause about event order / resumption is validated by differential execution and a FIFO oracle on every run (C06), its ring is proved separately (C06: no stale read, only the oldest entries displaced, oldest waiting entry handed out); what remains unproved is the composition of the scheduler model (abstract queues) with the two ring refinements into one trace theorem."
+    ck.explanation = "PARTIAL: scheduler order theorems and the refinement of the byte-offset HighPriorityASDUQueue ring to a FIFO (every ring size, every history, no stale read, entries inside the arena) are proved in Coq; the byte-offset ring of the EVENT queue (MessageQueue) behind the clause about event order / resumption is validated by differential execution and a FIFO oracle on every run (C06), its ring is proved separately (C06: no stale read, only the oldest entries displaced, oldest waiting entry handed out); the scheduler composed with the high-priority ring is proved (Cs104/SchedRing.v: the ring-backed scheduler functions are the list versions whenever the ring accepts, a refusal changes nothing) and run against the real static functions; what remains unproved is the composition of the scheduler with the EVENT ring into one trace theorem."
     ck.coq("C13")
     h = c06.harness()
     try:
@@ -327,6 +427,7 @@ def run(ck):
         m = None
         ck.fail("correspondence", "model-build", "extracted model does not build: " + str(e)[:300], {"theorem": "extraction"})
     run_unit(ck, h, m, rng, quick)
+    run_sched(ck, h, m, rng, quick)
     run_trace(ck, rng, quick)
     run_resume(ck, rng, quick)
     c06.run_resume_replies(ck, rng, quick, sig="oracle:resume-replies:server")
